@@ -221,11 +221,23 @@ fn kernels_on(rng: &mut Rng, t: &mut Shards, dt: &DataType, max_len: usize) {
 
     // interleave
     let nonempty: Vec<usize> = (0..narr).filter(|i| !cols[*i].is_empty()).collect();
-    if !nonempty.is_empty() {
-        let k = mk::rand_len(rng, 40);
+    // (list-like / view types choose between strategies by comparing the selected sizes with the
+    //  backing length: few rows, many repeated rows, rows from one source only)
+    let il_reps = if matches!(fam, "listview" | "list" | "view" | "dict") { 8 } else { 1 };
+    for rep in 0..il_reps {
+        if nonempty.is_empty() {
+            break;
+        }
+        let k = match rep % 4 {
+            0 => mk::rand_len(rng, 40),
+            1 => 60 + rng.below(120), // many repeated rows
+            2 => 1 + rng.below(3),
+            _ => mk::rand_len(rng, 20),
+        };
+        let only = if rep % 4 == 3 { Some(*rng.pick(&nonempty)) } else { None };
         let pairs: Vec<(usize, usize)> = (0..k)
             .map(|_| {
-                let a = *rng.pick(&nonempty);
+                let a = only.unwrap_or_else(|| *rng.pick(&nonempty));
                 (a, rng.below(cols[a].len()))
             })
             .collect();
@@ -248,6 +260,9 @@ fn kernels_on(rng: &mut Rng, t: &mut Shards, dt: &DataType, max_len: usize) {
             if scalar && rng.chance(60) {
                 let m = 2 + rng.below(5);
                 let big = mk::array(rng, dt, m, Cfg::wild(np));
+                // view arrays: spread the long values over several data buffers first, so that a
+                // one-row slice may reference a buffer other than the first
+                let big = if rng.chance(60) { mutate::view_repartition(&big).unwrap_or(big) } else { big };
                 big.slice(rng.below(m), 1)
             } else {
                 mk::array(rng, dt, if scalar { 1 } else { n }, Cfg::wild(np))
